@@ -68,11 +68,12 @@ theorem program_try_finally_signal (f sc tvs fs : Nat) (n body last fb c : Node)
     (by intro w h; cases h; exact he w rfl) (by intro h; cases h; exact he' rfl)
 
 /-
-FULL STATEMENT NOT PROVED (`spec_refinement_partial`): an independent big-step `Spec.exec` over the
-control-flow fragment with structured outcomes (normal | brk | cont | ret v | err e), written from the
-language reference, and `eval` refines it on WellFormed trees. What exists instead: the per-construct
-equations at the level of `eval` (if, condition loop, for-in, try/except/otherwise/finally, return,
-break/continue, call, raise, statements) and this composed instance.
+The independent reference semantics and the refinement are in Props/C04Spec.lean (`Spec.exec`, `refines`)
+and Props/C04SpecEval.lean (`eval_is_impl`, `eval_refines_spec`: statements, if, condition loops, try with
+otherwise / finally, calls). Still outside the refinement (`spec_refinement_partial`): `for … in` loops
+(a leaf of `stmtOf`; their laws are loop_iter_step / loop_list / loop_range_runs_rangeVals and the eval-level
+break/continue theorem), and except clauses enter as whole handlers (`Clauses.opaque`; the decision of a
+typed clause is `exceptHandler_typed_decides`).
 -/
 
 /-! ### non-vacuity on a tree of the real parser
